@@ -113,6 +113,64 @@ func vecOf(id, ver, dim int) []float32 {
 	return v
 }
 
+// metaOf: the metadata a World III write carries. It is a function of (id,
+// version, kind) so that every oracle can tell, from a stored item alone, which
+// metadata it must hold whatever path the write took (local, proxied, batch,
+// replayed, restored from a snapshot):
+//   - items with id%4 == 3 never carry metadata;
+//   - an insert carries ver, id and born (= its own version);
+//   - an update carries ver and id, or (version divisible by 3) ver only, so
+//     that "id" and "born" survive only if the partition merges old metadata.
+func metaOf(id, ver int, kind string) map[string]string {
+	if id%4 == 3 {
+		return nil
+	}
+	m := map[string]string{"ver": fmt.Sprint(ver)}
+	switch kind {
+	case "ins", "bins":
+		m["id"] = fmt.Sprint(id)
+		m["born"] = fmt.Sprint(ver)
+	default:
+		if ver%3 != 0 {
+			m["id"] = fmt.Sprint(id)
+		}
+	}
+	return m
+}
+
+// metaProblem: what is wrong with the metadata of a stored or returned item
+// that holds version ver of id ("" = nothing). insertVers: versions of the
+// inserts of this id that were ever submitted (nil: not known, skip that part).
+func metaProblem(id, ver int, md map[string]string, insertVers map[int]bool) string {
+	if id%4 == 3 {
+		if len(md) != 0 {
+			return fmt.Sprintf("the item was never given metadata but holds %v", md)
+		}
+		return ""
+	}
+	if md["ver"] != fmt.Sprint(ver) {
+		return fmt.Sprintf("metadata key ver is %q, the write that stored vector version %d carried %q (metadata %v)", md["ver"], ver, fmt.Sprint(ver), md)
+	}
+	if md["id"] != fmt.Sprint(id) {
+		return fmt.Sprintf("metadata key id is %q, want %q (set by the insert, kept by every update; metadata %v)", md["id"], fmt.Sprint(id), md)
+	}
+	b, ok := md["born"]
+	if !ok {
+		return fmt.Sprintf("metadata key born (set by the insert, never overwritten by an update) is missing: %v", md)
+	}
+	var bv int
+	if _, err := fmt.Sscan(b, &bv); err != nil || bv > ver {
+		return fmt.Sprintf("metadata key born is %q on an item holding version %d", b, ver)
+	}
+	if insertVers != nil && !insertVers[bv] {
+		return fmt.Sprintf("metadata key born is %q, which is not the version of any insert of this id", b)
+	}
+	if len(md) != 3 {
+		return fmt.Sprintf("metadata has keys nobody wrote: %v", md)
+	}
+	return ""
+}
+
 func errKind(err error) string {
 	if err == nil {
 		return "ok"
@@ -533,6 +591,7 @@ func (r *W3Run) startWrite(h *histOp) {
 			it := &pb.BatchItem{Id: idOf(id).Bytes()}
 			if op.K != "brem" {
 				it.Value = vecOf(id, op.Vers[i], dim)
+				it.Metadata = metaOf(id, op.Vers[i], op.K)
 			}
 			its = append(its, it)
 		}
@@ -542,9 +601,9 @@ func (r *W3Run) startWrite(h *histOp) {
 	h.cop = r.s.client(n, name, 8*time.Second, func(ctx context.Context, n *simNode) (interface{}, error) {
 		switch op.K {
 		case "ins":
-			return n.svcData.Insert(ctx, &pb.InsertRequest{DatasetId: dsid, Id: idOf(op.Ids[0]).Bytes(), Value: vecOf(op.Ids[0], op.Vers[0], dim)})
+			return n.svcData.Insert(ctx, &pb.InsertRequest{DatasetId: dsid, Id: idOf(op.Ids[0]).Bytes(), Value: vecOf(op.Ids[0], op.Vers[0], dim), Metadata: metaOf(op.Ids[0], op.Vers[0], "ins")})
 		case "upd":
-			return n.svcData.Update(ctx, &pb.UpdateRequest{DatasetId: dsid, Id: idOf(op.Ids[0]).Bytes(), Value: vecOf(op.Ids[0], op.Vers[0], dim)})
+			return n.svcData.Update(ctx, &pb.UpdateRequest{DatasetId: dsid, Id: idOf(op.Ids[0]).Bytes(), Value: vecOf(op.Ids[0], op.Vers[0], dim), Metadata: metaOf(op.Ids[0], op.Vers[0], "upd")})
 		case "rem":
 			return n.svcData.Remove(ctx, &pb.RemoveRequest{DatasetId: dsid, Id: idOf(op.Ids[0]).Bytes()})
 		case "bins":
